@@ -131,6 +131,9 @@ def verify_function(key, tier='quick', keep_terms=False, discharge=True):
                     st.prove('return-type', z3.BoolVal(False), kind='type')
                     raise PathEnd()
                 envr['result'] = rv2
+                # vacuity guard: the path must be feasible BEFORE the postconditions are assumed
+                if st.feasible(z3.BoolVal(True)):
+                    res.feasible_exits += 1
                 for i, en in enumerate(c.ensures):
                     g = E.spec_bool(st, en, envr)
                     st.prove('post#%d' % i, g, kind='post', lineno=st.lineno)
@@ -140,8 +143,6 @@ def verify_function(key, tier='quick', keep_terms=False, discharge=True):
                     g = E.spec_bool(st, en, envc)
                     st.prove('check#%d' % i, g, kind='post', lineno=st.lineno)
                 ex.exits['normal'] += 1
-                if st.feasible(z3.BoolVal(True)):
-                    res.feasible_exits += 1
             else:
                 pr = outcome[1]
                 clauses = None
@@ -155,11 +156,11 @@ def verify_function(key, tier='quick', keep_terms=False, discharge=True):
                 else:
                     envr = dict(env)
                     envr['exc'] = Val(T.TRef(pr.cls), pr.ref)
+                    if st.feasible(z3.BoolVal(True)):
+                        res.feasible_exits += 1
                     for i, en in enumerate(clauses[1]):
                         g = E.spec_bool(st, en, envr)
                         st.prove('raises[%s]#%d' % (clauses[0], i), g, kind='post', lineno=pr.lineno)
-                    if st.feasible(z3.BoolVal(True)):
-                        res.feasible_exits += 1
                 ex.exits['raise'] += 1
 
         ex.run(run)
